@@ -180,3 +180,42 @@ fn probe_bbuf_constprop() {
     assert!(nul == Some(1));
     assert!(a == w[0] && b == w[1] && c == w[2]);
 }
+
+fn probe_sv_make(c: bool) -> (smallvec::SmallVec<[u64; 4]>, smallvec::SmallVec<[u32; 4]>) {
+    let mut a: smallvec::SmallVec<[u64; 4]> = smallvec::smallvec![];
+    if c { a.push(5); }
+    a.push(7);
+    (a, smallvec::smallvec![])
+}
+fn spin(n: u64) -> u64 {
+    let mut i = 0;
+    while i < n { i += 1; }
+    i
+}
+
+// @harness probe_smallvec_constprop
+// @props X
+// @tier off
+// @kind stretch
+// @timeout 600
+// @mem 8
+// @fs 16384
+// @functions probe only
+// @bounds probe
+#[kani::proof]
+#[kani::unwind(20)]
+#[kani::stub(smallvec::SmallVec::push, crate::verif_support::smallvec_push_inline)]
+fn probe_smallvec_constprop() {
+    let (a, _b) = probe_sv_make(true);
+    let mut dq: std::collections::VecDeque<u64> = std::collections::VecDeque::with_capacity(2048);
+    dq.push_front(3);
+    let x = dq.pop_front().unwrap();
+    let r0 = spin(x);
+    for child in a.into_iter().rev() {
+        dq.push_front(child);
+    }
+    let y = dq.pop_front().unwrap();
+    let r1 = spin(y);
+    assert!(r0 == 3 && r1 == 5);
+    core::mem::forget(dq);
+}
